@@ -1,3 +1,3 @@
-CONSTANTS DeepCopy = TRUE  Family = "tokens"  MaxMut = 2  Contexts = {"L1", "L2", "L3", "B"}
+CONSTANTS DeepCopy = TRUE  Family = "tokens"  MaxMut = 2  ResaveEdges = TRUE  MaxOps = 2  Contexts = {"L1", "L2", "L3", "B"}
 INIT GenInit
 NEXT GenNext
